@@ -478,7 +478,7 @@ pub fn run(tier: Tier) -> i32 {
     }
     let report = Report::new("C02", tier, "model_checking");
     let (live, live_states, live_transitions, live_completions, live_traces) = run_liveness_prefixes(&report, tier);
-    let scs = scenarios(tier);
+    let scs = if crate::common::replay_req().is_some() { Vec::new() } else { scenarios(tier) };
     let total_ms = tier.pick(12_000u64, 16_000);
     let samples = std::sync::Mutex::new(Samples::new(5));
     let inconclusive = std::sync::Mutex::new(Vec::<Value>::new());
@@ -504,6 +504,7 @@ pub fn run(tier: Tier) -> i32 {
     // be certified through fallback votes and the parent switch is the only way forward
     let handover_jobs: Vec<(Handover, Vec<u64>)> = [vec![21u64, 20, 20, 19, 20], vec![22, 21, 21, 18, 18]]
         .into_iter()
+        .filter(|_| crate::common::replay_req().is_none())
         .flat_map(|st| [Handover::Equivocate, Handover::OnlyNextLeader, Handover::LastTwoOnlyNextLeader].into_iter().map(move |v| (v, st.clone())))
         .collect();
     let handover_results: Vec<(Handover, Vec<u64>, Result<crate::c10::Outcome, String>)> = handover_jobs.into_par_iter().map(|(v, st)| { let r = crate::c10::run_handover(v, &st); (v, st, r) }).collect();
